@@ -198,6 +198,11 @@ func runC33(t *testing.T, sc c33sc, keepAlive time.Duration, prefix []int) explo
 				add("api-call-fails:"+sc.action, "%s returned %q (it returns nil without the keep-alive loop)", sc.action, call.Err)
 			}
 		}
+		// ... and whatever the gateway does with the pings, the call returns (the client may legitimately give up
+		// when its keep-alive pings stay unanswered, but then the call returns an error)
+		if call != nil && silent && len(s.Panics) == 0 && !call.Returned {
+			add("api-call-blocked:"+sc.action+":ping-unanswered", "%s has not returned %v after it started although a keep-alive ping stayed unanswered for good; parked %v", sc.action, horizon-call.Started, s.ParkedLabels())
+		}
 		var sb strings.Builder
 		for _, x := range sent {
 			fmt.Fprintf(&sb, "%v:%s/%s;", x.at, x.p.Name(), x.state)
@@ -259,7 +264,7 @@ func TestC33(t *testing.T) {
 	}
 	explore.RunScenarios(rep, scs, explore.ScenarioOpts{Test: "TestC33", QuickBound: 2, ThoroughFrom: 2, ThoroughMax: 4,
 		QuickBudget: 150 * time.Second, ThoroughBudge: 12 * time.Minute})
-	rep.Coverage["rule"] = "KeepAlive 4 s and 2 s (a tick can come due while the previous ping is in flight), RetryDelay 1 s, RetryCount 2; after Connect one API action (Sleep 3 s / Sleep 6 s / Disconnect / Publish q1 / Ping / none) at t = 0.5 .. 9.5 s (0.5 .. 5.5 s for KeepAlive 2 s); the gateway answers each keep-alive PINGREQ at once / 1 s late / 2 s late / never and a DISCONNECT(d) at once / 1 s late; all combinations of these answers, of thread interleavings (API thread, receive loop, keep-alive loop, timer goroutines), of orders of timers due at the same instant and of ready select cases within the deviation bound, run to a 20 s horizon. Checked: no PINGREQ without client id is written while the client state is asleep or disconnected; while active PINGREQs are at most KeepAlive apart (when every ping is answered); with every ping answered the API call returns nil as it does without the keep-alive loop"
+	rep.Coverage["rule"] = "KeepAlive 4 s and 2 s (a tick can come due while the previous ping is in flight), RetryDelay 1 s, RetryCount 2; after Connect one API action (Sleep 3 s / Sleep 6 s / Disconnect / Publish q1 / Ping / none) at t = 0.5 .. 9.5 s (0.5 .. 5.5 s for KeepAlive 2 s); the gateway answers each keep-alive PINGREQ at once / 1 s late / 2 s late / never and a DISCONNECT(d) at once / 1 s late; all combinations of these answers, of thread interleavings (API thread, receive loop, keep-alive loop, timer goroutines), of orders of timers due at the same instant and of ready select cases within the deviation bound, run to a 20 s horizon. Checked: no PINGREQ without client id is written while the client state is asleep or disconnected; while active PINGREQs are at most KeepAlive apart (when every ping is answered); with every ping answered the API call returns nil as it does without the keep-alive loop, and it returns in any case"
 	rep.Assumptions = []string{"virtual time; timers on whole seconds, actions on half seconds", "client state sampled at every scheduling step", "keep-alive PINGREQ = PINGREQ without client id"}
 	rep.Finish()
 }
